@@ -16,7 +16,7 @@ import AgVerif.Model.LitCtx
 
 namespace AgVerif.C21
 open AgVerif.Translate AgVerif.JavaSem
-open AgVerif.Gen.Translate (rows Row ctxRows)
+open AgVerif.Gen.Translate (rows Row ctxRows ctx2Rows)
 open AgVerif.DalvikSem (Form step litOk)
 
 /-- the whole property, for the record: for every method of the subset the emitted Java source compiles and
@@ -44,6 +44,16 @@ theorem literal_contexts_checked : ctxRows.all ctxRowOk = true := by
 
 /-- every context has exactly one way of being printed (no value-dependent special case) -/
 theorem literal_contexts_complete : ctxComplete ctxRows = true := by
+  decide +kernel
+
+/-- **nested_contexts_checked**: a nest of two operations on constants that came from registers, ((x op1 c1) op2 c2) and
+    (c1 op1 (x op2 c2)) for every pair of the operators + − * & | ^ << >> >>> (int) and + − * & (long), is printed as exactly
+    that nest — nothing folded, re-associated or dropped — with two literals denoting c1 and c2, for every pair of
+    boundary constants (MAX, MIN, ±2^30, ±1, 0 …, including all the pairs whose sum or product overflows) -/
+theorem nested_contexts_checked : ctx2Rows.all ctx2RowOk = true := by
+  decide +kernel
+
+theorem nested_contexts_complete : ctx2Complete ctx2Rows = true := by
   decide +kernel
 
 /-- what such a literal denotes under the JLS semantics: the constant itself, as an int (resp. long) -/
